@@ -188,19 +188,33 @@ Proof.
 Qed.
 
 (* ------------------------------------------------------------------ AnamHermite *)
+(* point-support anamorphoses only (r >= 1 or undefined): with r < 1 the coefficients come back multiplied by r^i *)
 Definition wf_AnamHermite (o : anam_hermite) : Prop :=
   wf_dbl (ah_azmin o) /\ wf_dbl (ah_azmax o) /\ wf_dbl (ah_aymin o) /\ wf_dbl (ah_aymax o) /\
   wf_dbl (ah_pzmin o) /\ wf_dbl (ah_pzmax o) /\ wf_dbl (ah_pymin o) /\ wf_dbl (ah_pymax o) /\
   wf_dbl (ah_mean o) /\ wf_dbl (ah_variance o) /\ wf_dbl (ah_rcoef o) /\ Forall wf_dbl (ah_psi o) /\
-  ah_psi o <> [] /\ ah_mean o = hd d0 (ah_psi o) /\ ah_variance o = hermite_variance (ah_psi o).
+  ah_psi o <> [] /\ csd (ah_rcoef o) = false /\
+  ah_mean o = hd d0 (ah_psi o) /\ ah_variance o = hermite_variance (ah_rcoef o) (ah_psi o).
 
 Lemma AnamHermite_reads o : wf_AnamHermite o -> reads deser_AnamHermite (ser_AnamHermite o) o.
 Proof.
-  destruct o as [a1 a2 a3 a4 p1 p2 p3 p4 m v r psi]. unfold wf_AnamHermite. cbn -[hermite_variance].
-  intros (H1 & H2 & H3 & H4 & H5 & H6 & H7 & H8 & H9 & H10 & H11 & H12 & Hne & Hm & Hv).
-  unfold deser_AnamHermite, ser_AnamHermite. cbn -[hermite_variance]. rd.
+  destruct o as [a1 a2 a3 a4 p1 p2 p3 p4 m v r psi]. unfold wf_AnamHermite. cbn -[hermite_variance csd].
+  intros (H1 & H2 & H3 & H4 & H5 & H6 & H7 & H8 & H9 & H10 & H11 & H12 & Hne & Hcsd & Hm & Hv).
+  unfold deser_AnamHermite, ser_AnamHermite. cbn -[hermite_variance csd psi_eff]. rd.
+  unfold psi_eff at 1. rewrite Hcsd.
   eapply reads_bind_cons; [apply reads_vdbl; auto|]. apply reads_ret_eq. subst m v. reflexivity.
 Qed.
+
+(* block support: r = 1/2, raw coefficients (1, 2, 4): the file holds (1, 1, 1), which come back as raw coefficients *)
+Definition ah_witness : anam_hermite :=
+  {| ah_azmin := None; ah_azmax := None; ah_aymin := None; ah_aymax := None;
+     ah_pzmin := None; ah_pzmax := None; ah_pymin := None; ah_pymax := None;
+     ah_mean := Some 1%Q; ah_variance := Some 2%Q; ah_rcoef := Some (1#2)%Q;
+     ah_psi := [Some 1%Q; Some 2%Q; Some 4%Q] |}.
+Lemma AnamHermite_witness :
+  option_map ah_psi (nf_read "AnamHermite" deser_AnamHermite (lex (print (nf_write "AnamHermite" (ser_AnamHermite ah_witness)))))
+  = Some [Some 1%Q; Some 1%Q; Some 1%Q].
+Proof. vm_compute. reflexivity. Qed.
 
 (* ------------------------------------------------------------------ printed records are lexically well formed *)
 Lemma good_r_int t z : good_title (W t) = true -> good_rec (r_int t z) = true.
